@@ -229,5 +229,62 @@ func resolveRenamedRoles(p *Prog, rolesPath string) []string {
 			notes = append(notes, name+" -> "+best.Name()+" (renamed; fingerprint similarity "+fmt.Sprintf("%.2f", bestS)+", +0.2 when the signature is unchanged)")
 		}
 	}
+	// a role merged into its only caller (createTaskWithDir inlined into createTask): the caller now plays both roles
+	for _, name := range names {
+		if p.byName["ergo."+name] != nil {
+			continue
+		}
+		fp := roles[name]
+		var by []string
+		for _, f := range fp.Features {
+			if strings.HasPrefix(f, "by:") {
+				by = append(by, strings.TrimPrefix(f, "by:"))
+			}
+		}
+		if len(by) != 1 {
+			continue
+		}
+		host := p.byName["ergo."+by[0]]
+		if host == nil || host.Parent() != nil {
+			continue
+		}
+		cur := map[string]bool{}
+		for _, f := range computeFeatures(p, host, isRole) {
+			cur[f] = true
+		}
+		if cur["call:"+name] {
+			continue
+		}
+		in, total := 0, 0
+		for _, f := range fp.Features {
+			if strings.HasPrefix(f, "by:") {
+				continue
+			}
+			total++
+			if cur[f] {
+				in++
+			}
+		}
+		if total == 0 || float64(in)/float64(total) < 0.85 {
+			continue
+		}
+		p.byName["ergo."+name] = host
+		if p.inlinedInto == nil {
+			p.inlinedInto = map[string]string{}
+		}
+		p.inlinedInto[name] = host.Name()
+		notes = append(notes, name+" -> "+host.Name()+fmt.Sprintf(" (inlined into its only caller; %d of %d recorded features found there)", in, total))
+	}
 	return notes
+}
+
+// aliasKey rewrites an obligation key recorded for a function that has since been inlined into its only caller (known
+// findings are keyed by function): "RD3|ergo.createTaskWithDir$1|..." -> "RD3|ergo.createTask$1|...".
+func (p *Prog) aliasKey(key string) string {
+	for from, to := range p.inlinedInto {
+		for _, sep := range []string{"|", "$"} {
+			key = strings.ReplaceAll(key, "|ergo."+from+sep, "|ergo."+to+sep)
+		}
+	}
+	return key
 }
